@@ -178,6 +178,15 @@ CHECKS = {
               'processes with ITEM_CACHE_SIZE 1, 2, 7 and 1000. Writes to enum members are probed in a throw-away process.'),
         design_ref='DESIGN.md section 5 C14',
         note='Trusted: the structural walk. ITEM_CACHE_SIZE=0 is not a supported configuration (construction fails outright).'),
+    'C15': dict(
+        category='exploration',
+        technique='exhaustive small universe of sentences x parameter pairs + Hypothesis deep sentences; reference substitution and attribute walkers on nested tuples',
+        text=('Substitution, instantiation, negative() and the six derived attributes of the real Sentence classes are compared '
+              'with reference implementations on an independent nested-tuple representation: exhaustively for all sentences of '
+              'depth <= 2 over a tiny vocabulary x all ordered parameter pairs, and for Hypothesis-generated sentences of depth '
+              '<= 5 over the full vocabulary (open sentences, nested quantifiers sharing parameters, self-substitution).'),
+        design_ref='DESIGN.md section 5 C15',
+        note='Pairs whose old parameter is re-bound inside the sentence are excluded and counted: the property does not fix that edge.'),
 }
 
 NOT_YET = 'check not built yet in this session (planned, see DESIGN.md section 5); no claim is made'
